@@ -8,7 +8,7 @@ static bool safech(unsigned char c) { return isalnum(c) || strchr(".@%+/=:-[]", 
 static std::string ns(const std::string &s) { return std::to_string(s.size()) + ":" + s + ","; }
 
 struct Case { std::string name, daemon, input; std::map<std::string, std::string> env; std::string sender; std::vector<std::string> rcpts; std::string body, body2; bool has_body2 = false; std::string morercpt; bool has_morercpt = false; bool partial_ok = false; bool framing_check = true; std::vector<int> want_codes; bool wellformed = true; int qstatus = 0; std::string qtext; bool qcrash = false;
-              std::vector<std::string> bodies; std::vector<int> expect_multi; /* per message: 0 ack, 5 permanent */ int expect_class = 0; /* 0 success, 4 temporary, 5 permanent, -1 protocol violation (no acknowledgement at all) */ int databytes = 0; bool realqueue = false; bool cut = false; std::string databytes_text; bool databytes_env = false; /* literal limit */ std::string rcpthosts; bool stall = false; bool is_session = false; std::vector<std::string> sess_envs, sess_bodies; };
+              std::vector<std::string> bodies; std::vector<int> expect_multi; /* per message: 0 ack, 5 permanent */ int expect_class = 0; /* 0 success, 4 temporary, 5 permanent, -1 protocol violation (no acknowledgement at all) */ int databytes = 0; bool realqueue = false; bool cut = false; std::string databytes_text; bool databytes_env = false; /* literal limit */ std::string rcpthosts; bool stall = false; bool qearly = false; /* the queue program exits without reading its input */ bool is_session = false; std::vector<std::string> sess_envs, sess_bodies; };
 
 static std::string smtp_session(const std::string &helo, const std::string &sender, const std::vector<std::string> &rc, const std::string &body_lf, bool quit = true) {
   std::string s = "HELO " + helo + "\r\nMAIL FROM:<" + sender + ">\r\n"; for (auto &r : rc) s += "RCPT TO:<" + r + ">\r\n";
@@ -25,10 +25,16 @@ static std::vector<Case> make_cases(const Config &cfg) {
   auto base = [&](const std::string &d) { Case c; c.daemon = d; c.sender = "s@src.example"; c.rcpts = rc; c.body = body; c.env = {{"TCPREMOTEIP", "192.0.2.9"}, {"TCPREMOTEHOST", "peer.example"}, {"TCPLOCALHOST", "mx.example"}};
     c.input = d == "smtpd" ? smtp_session("peer.example", c.sender, rc, body) : d == "qmtpd" ? qmtp_session(c.sender, rc, body) : qmqp_session(c.sender, rc, body); return c; };
   for (const char *d : {"smtpd", "qmtpd", "qmqpd"}) {
-    if (fam == "status") {
+    if (fam == "status" || fam == "early") {
       for (int st = 0; st < 256; st++) { Case c = base(d); c.name = std::string(d) + " queue-exit-" + std::to_string(st); c.qstatus = st; c.expect_class = st == 0 ? 0 : ((st >= 11 && st <= 40) ? 5 : 4); if (st == 115) c.expect_class = 45; if (st == 82) c.expect_class = 4; v.push_back(c); }
       for (const char *t : {"Dcustom permanent text", "Zcustom temporary text", "Dx", "Z", ""}) { Case c = base(d); c.name = std::string(d) + " queue-exit-82[" + t + "]"; c.qstatus = 82; c.qtext = t; c.expect_class = (strlen(t) > 2 && t[0] == 'D') ? 5 : 4; v.push_back(c); }
       { Case c = base(d); c.name = std::string(d) + " queue-crash"; c.qcrash = true; c.expect_class = 4; v.push_back(c); }
+      // a queue program (QMAILQUEUE) that makes up its mind before it has read anything: the daemon's writes then fail, the exit status still decides the class
+      for (int st : {31, 11, 53, 81}) for (const char *t : {"", "Dpolicy says no"}) { if (*t && st != 31) continue; Case c = base(d); c.qearly = true; c.qstatus = *t ? 82 : st; c.qtext = t; c.name = std::string(d) + " queue program exits " + std::to_string(c.qstatus) + (*t ? " [" + std::string(t) + "]" : "") + " without reading its input";
+        c.expect_class = (st >= 11 && st <= 40) ? 5 : 4; v.push_back(c); }
+      // RELAYCLIENT with a non-empty suffix: every accepted recipient is queued with the suffix appended
+      if (std::string(d) == "smtpd") { Case c = base(d); c.env["RELAYCLIENT"] = "@gw.example"; c.rcpts = {"r1@a.example@gw.example", "r2@b.example@gw.example"}; c.name = "smtpd RELAYCLIENT=@gw.example"; v.push_back(c); }
+      if (std::string(d) == "qmtpd") { Case c = base(d); c.env["RELAYCLIENT"] = "@gw.example"; c.rcpts = {"r1@a.example@gw.example", "r2@b.example@gw.example"}; c.name = "qmtpd RELAYCLIENT=@gw.example"; v.push_back(c); }
       { Case c = base(d); c.name = std::string(d) + " real-qmail-queue"; c.realqueue = true; v.push_back(c); }
     } else if (fam == "cut") {
       Case b0 = base(d);
@@ -43,6 +49,10 @@ static std::vector<Case> make_cases(const Config &cfg) {
       for (int delta : {-1, 0, 1}) for (int viaenv : {0, 1}) { Case c = base(d); if (c.daemon == "qmqpd") continue; int lim = 40; std::string b(lim + delta - 1, 'x'); b += "\n"; c.body = b; c.databytes = viaenv ? -lim : lim; c.expect_class = delta > 0 ? 5 : 0;
         c.input = c.daemon == "smtpd" ? smtp_session("peer.example", c.sender, rc, b) : qmtp_session(c.sender, rc, b); c.name = std::string(d) + " body=databytes" + (delta < 0 ? "-1" : delta ? "+1" : "") + (viaenv ? " (DATABYTES env)" : ""); v.push_back(c);
         if (c.daemon == "qmtpd") { Case e = c; e.input = ns("\r" + std::string(lim + delta - 1, 'x') + "\r\n") + ns(c.sender) + ns(ns(rc[0]) + ns(rc[1])); e.name += " CRLF-encoding"; v.push_back(e); } }
+      // over the limit, and then lines that look a little like the end mark: the refused message must still be read to its real end
+      if (std::string(d) == "smtpd") for (const char *tail : {"x.\n", ".x\n", "x.x\n..\n", "x.\n.x\n\n.\rx\n", "MAIL FROM:<evil@x>\nx.\nRCPT TO:<r1@a.example>\nDATA\nsmuggled\n"}) for (int viaenv : {0, 1}) {
+        Case c = base(d); int lim = 40; std::string b = std::string(lim + 5, 'x') + "\n" + tail; c.body = b; c.databytes = viaenv ? -lim : lim; c.expect_class = 5; c.input = smtp_session("peer.example", c.sender, rc, b);
+        c.name = std::string("smtpd body over databytes followed by [") + esc(tail) + "]" + (viaenv ? " (DATABYTES env)" : ""); v.push_back(c); }
       // limits up to 2^32-1 (the limit is kept in an unsigned int and compared after adding 1; larger values are outside what the type can hold
       // and are not judged): a 20-byte message is below every one of them
       for (const char *lim : {"4294967295", "4294967294", "2147483647", "2147483648", "0"}) for (int viaenv : {0, 1}) { Case c = base(d); if (c.daemon == "qmqpd") continue;
@@ -84,6 +94,7 @@ static std::vector<Case> make_cases(const Config &cfg) {
       // every read of the daemon (network input, the queue program's error text on descriptor 6) may return fewer bytes than are there:
       // legal behaviour of a pipe, so nothing may change
       { Case c = base(d); c.name = std::string(d) + " (short reads) accepted message"; c.expect_class = 0; v.push_back(c); }
+      if (std::string(d) == "smtpd") { Case c = base(d); c.rcpts = {std::string("odd\rname@a.example"), "r2@b.example"}; c.input = "HELO x\r\nMAIL FROM:<" + c.sender + ">\r\nRCPT TO:<\"odd\\\rname\"@a.example>\r\nRCPT TO:<r2@b.example>\r\nDATA\r\nSubject: t\r\n\r\nhello\r\n..dot line\r\n.\r\nQUIT\r\n"; c.name = "smtpd (short reads) recipient with a quoted CR in its local part"; c.expect_class = 0; v.push_back(c); }
       { Case c = base(d); c.name = std::string(d) + " (short reads) queue-exit-82[Dcustom permanent text]"; c.qstatus = 82; c.qtext = "Dcustom permanent text"; c.expect_class = 5; v.push_back(c); }
       { Case c = base(d); c.name = std::string(d) + " (short reads) queue-exit-82[Zcustom temporary text]"; c.qstatus = 82; c.qtext = "Zcustom temporary text"; c.expect_class = 4; v.push_back(c); }
     } else if (fam == "faults") {
@@ -107,7 +118,11 @@ static std::vector<Case> make_cases(const Config &cfg) {
               if (l == ".") { status = 0; break; }
               if (!l.empty() && l[0] == '.') { if (l.size() >= 2 && l[1] == '\r') { amb = true; o2 += l; } else o2 += l.substr(1); o += l.substr(1); } else { o += l; o2 += l; }
               o += "\n"; o2 += "\n"; i = j + 1; }
-            if (status == 0) { c.body = o; c.body2 = o2; c.has_body2 = amb; c.expect_class = 0; } else { c.body = ""; c.expect_class = 4; c.wellformed = false; } }
+            if (status == 0) { c.body = o; c.body2 = o2; c.has_body2 = amb; c.expect_class = 0; } else { c.body = ""; c.expect_class = 4; c.wellformed = false; }
+            // the only end-of-data mark is the one the case appends: then exactly the message and the QUIT are answered after the 354
+            if (status == 0 && i == pl.size() + 2) c.framing_check = true;
+            // with a size limit (option databytes): a message whose decoded body is longer is refused permanently -- and still consumed up to its own end-of-data mark
+            if (int lim = cfg.geti("databytes", 0)) { c.databytes = -lim; c.name += " DATABYTES=" + std::to_string(lim); if (status == 0) { if (o.size() > (size_t) lim && o2.size() > (size_t) lim) { c.expect_class = 5; c.body = ""; c.has_body2 = false; } else if (o.size() > (size_t) lim || o2.size() > (size_t) lim) c.expect_class = 99; /* the two readings of ". CR x" differ in length: either answer */ } } }
           v.push_back(c);
           int i = n - 1; while (i >= 0 && ++idx[i] == 4) { idx[i] = 0; i--; } if (i < 0) break; } }
     } else if (fam == "morercpt") {
@@ -160,6 +175,7 @@ static std::vector<Case> make_cases(const Config &cfg) {
         Case c = base(d); if (std::string(field) == "HELO") c.input = smtp_session(s, c.sender, rc, body); else c.env[field] = s; c.name = std::string(d) + " " + field + "=[" + esc(s) + "]"; v.push_back(c); }
     }
   }
+  if (fam == "early") { std::vector<Case> k; for (auto &c : v) if (c.qearly) k.push_back(c); v = k; }   // only the queue programs that exit before reading, explored under every interleaving within the preemption bound
   return v;
 }
 
@@ -203,7 +219,10 @@ struct C07 : Scenario {
   }
   int faults_seen = 0;
   void alternatives(World &w, Proc &p, const Req &r, std::vector<Alt> &a) override {
-    if (cfg.get("family", "status") == "shortreads" && w.ex->bound[BK_FAULT] > 0 && p.vpid == dpid && r.op == VK_READ) { Ofd *o = w.O(p, r.a[0]); if (o && o->kind == K_PIPE_R && o->pipe->buf.size() > 1 && r.a[1] > 1) { a.push_back({BK_FAULT, ALT_SHORT, 1}); if (o->pipe->buf.size() > 3) a.push_back({BK_FAULT, ALT_SHORT, (int) o->pipe->buf.size() - 1}); } return; }
+    if ((cfg.get("family", "status") == "shortreads" || cfg.get("family", "status") == "sessions") && w.ex->bound[BK_FAULT] > 0 && p.vpid == dpid && r.op == VK_READ) { Ofd *o = w.O(p, r.a[0]); if (o && o->kind == K_PIPE_R && o->pipe->buf.size() > 1 && r.a[1] > 1) {
+        size_t avail = std::min<size_t>(o->pipe->buf.size(), (size_t) r.a[1]);
+        if (r.a[0] == 0 && avail <= 240) { for (size_t n = 1; n < avail; n++) a.push_back({BK_FAULT, ALT_SHORT, (int) n}); }   // network input: the data arrives in two pieces, cut at every position
+        else { a.push_back({BK_FAULT, ALT_SHORT, 1}); if (avail > 3) a.push_back({BK_FAULT, ALT_SHORT, (int) avail - 1}); } } return; }
     if (cfg.get("family", "status") != "faults" || w.ex->bound[BK_FAULT] <= 0) return;
     bool daemon_side = p.vpid == dpid || (p.ppid == dpid && p.standin.empty() && p.name.find("qmail-queue") == std::string::npos);   // the daemon, or its child before the exec
     if (!daemon_side) return;
@@ -222,6 +241,7 @@ struct C07 : Scenario {
   static bool envelope_complete(const std::string &e) { size_t i = 0; if (e.empty() || e[0] != 'F') return false; size_t j = e.find('\0', i); if (j == std::string::npos) return false; i = j + 1; for (;;) { if (i >= e.size()) return false; if (e[i] == '\0') return i + 1 == e.size(); if (e[i] != 'T') return false; j = e.find('\0', i); if (j == std::string::npos) return false; i = j + 1; } }
   std::string script(World &, Proc &) override {
     std::string a; int v;
+    if (phase == 0 && c->qearly) { q_started = true; q_runs++; q_envelope_complete = false; q_exit = c->qstatus; if (c->qstatus == 82 && !c->qtext.empty()) { v = VKA_WRITE; a.append((char *) &v, 4); v = 6; a.append((char *) &v, 4); v = (int) c->qtext.size(); a.append((char *) &v, 4); a += c->qtext; } v = VKA_EXIT; a.append((char *) &v, 4); v = q_exit; a.append((char *) &v, 4); runmsg.push_back(""); runenv.push_back(""); runexit.push_back(q_exit); return a; }
     if (phase == 0) { phase = 1; q_started = true; q_runs++; qmsg.clear(); qenv.clear(); v = VKA_READALL; a.append((char *) &v, 4); v = 0; a.append((char *) &v, 4); v = VKA_READALL; a.append((char *) &v, 4); v = 1; a.append((char *) &v, 4); v = VKA_ASK; a.append((char *) &v, 4); return a; }
     // second call: both streams are at EOF.  qmail-queue(8): an incomplete envelope aborts (54); otherwise the scripted outcome
     q_envelope_complete = envelope_complete(qenv);
